@@ -35,23 +35,32 @@ def run(chk):
     hp = p.method(H + "ChannelHandler", "handle_packet")
     ext = p.method(H + "Message", "extend")
     new = p.method(H + "Message", "new")
-    ini = p.method(H + "Message", "init")
     snd = p.method(H + "Message", "send")
     tpk = p.method(H + "Message", "to_packets")
-    pht = p.method(H + "PacketHeader", "try_from")
-    iht = p.method(H + "InitHeader", "try_from")
     ihe = p.method(H + "InitHeader", "encode")
     che = p.method(H + "ContHeader", "encode")
-    chf = p.method(H + "ContHeader", "from")
-    need = dict(handle_packet=hp, extend=ext, new=new, init=ini, send=snd, to_packets=tpk, packet_try_from=pht, init_try_from=iht, init_encode=ihe, cont_encode=che, cont_from=chf)
+    need = dict(handle_packet=hp, extend=ext, new=new, send=snd, to_packets=tpk, init_encode=ihe, cont_encode=che)
     if not chk.require("R1 channel frame rule", "R1|anchors", all(v is not None for v in need.values()), H, "missing: %s" % [k for k, v in need.items() if v is None]):
         return
+    # the receiving side as one body: handle_packet together with the crate-private parsers and constructors it calls
+    # (PacketHeader::try_from, InitHeader::try_from, ContHeader::from, Message::init, ... — whichever exist), so that the
+    # rules below hold for the parse as a whole and not for how it is cut into helpers.  Bytes of the packet are tracked as
+    # byte-range views (rules/bytesview.py).
+    from . import inline, bytesview
+    HP = inline.inlined(p, hp)
+    Tv = flow.Terms(p, HP)
+    Tv.indexed = True
+    PKT = ("param", 2)
+    CH = ("ne", (PKT, 0, 4))
+    bdec = lambda t: bytesview.int_decode(t)
+    vw = lambda t: bytesview.closed_view(t)
+    for path in HP.inlined_callees:
+        chk.touched(p.bodies.get(path))
     for b in need.values():
         chk.touched(b)
 
     # ---------------- R1 / R2
     T = flow.Terms(p, hp)
-    pkt = lambda x: is_call(x, "PacketHeader::try_from") and x[2][0] == ("param", 2)
     tbl = []
     for bb, t in hp.calls():
         c = t.get("callee") or ""
@@ -59,29 +68,51 @@ def run(chk):
             tbl.append((bb, t, c.rsplit("::", 1)[-1]))
     keys_ok = True
     wit = []
-    for bb, t, m in tbl:
-        recv = flow.simplify_term(T.operand(t["args"][0], bb, "t"))
-        key = flow.simplify_term(T.operand(t["args"][1], bb, "t")) if len(t["args"]) > 1 else None
+    n_tbl = 0
+    for bb, t in HP.calls():
+        c = t.get("callee") or ""
+        m = c.rsplit("::", 1)[-1]
+        if not ("HashMap" in c and m in ("insert", "get_mut", "get", "remove", "entry", "contains_key", "clear", "retain", "drain", "values_mut", "iter_mut")):
+            continue
+        n_tbl += 1
+        recv = flow.simplify_term(Tv.operand(t["args"][0], bb, "t"))
+        key = N.norm(Tv.operand(t["args"][1], bb, "t")) if len(t["args"]) > 1 else None
         on_tbl = has(recv, lambda x: x == ("field", ("param", 1), "channels"))
-        k_ok = key is not None and key[0] == "field" and key[2] == "channel" and has(key, pkt) and not has(key, lambda x: x == ("field", ("param", 1), "channels"))
-        wit.append("%s(key=%s)" % (m, flow.term_str(key)[-60:] if key else "-"))
+        k_ok = key is not None and bdec(key) == CH
+        wit.append("%s(key=%s)" % (m, ("channel bytes packet[0..4]" if k_ok else flow.term_str(key)[-60:]) if key else "-"))
         if not (on_tbl and k_ok) or m in ("clear", "retain", "drain", "values_mut", "iter_mut"):
             keys_ok = False
-    chk.ob("R1 channel frame rule", "R1|handle_packet|keys-are-the-packet-channel", keys_ok and len(tbl) >= 3, where(hp), "table accesses: %s" % wit)
+    chk.ob("R1 channel frame rule", "R1|handle_packet|keys-are-the-packet-channel", keys_ok and n_tbl >= 3, where(hp), "table accesses: %s" % wit)
     st = p.adts.get(H + "ChannelHandler")
     fields = [f["name"] for f in st["variants"][0]["fields"]] if st else []
     statics = [k for k, c in p.consts.items() if k.startswith(H) and c["def_kind"].startswith("Static")]
     chk.ob("R1 channel frame rule", "R1|no-other-state", fields == ["channels"] and not statics, H + "ChannelHandler", "handler fields: %s, statics: %s" % (fields, statics))
-    outs = S.local_outcomes(hp)
+    # what is returned: a Message built from this packet (its channel is this packet's channel bytes), or the entry removed
+    # under this packet's channel
     ret_ok = True
-    for o in outs:
-        v = o.value
-        if o.variant[:1] == ("Some",):
-            inner = dict(v[3]).get("0")
-            ret_ok = ret_ok and is_call(inner, "Message::init") and has(inner, pkt)
-        elif o.variant == ():
-            ret_ok = ret_ok and isinstance(v, tuple) and v and v[0] == "call" and v[1].endswith("::remove")
-    chk.ob("R1 channel frame rule", "R1|returned-message-from-this-packet-or-entry", ret_ok, where(hp), "Some(..) rows return Message::init(this packet) or the removed entry of this channel: %s" % ret_ok)
+    n_some = 0
+    for s_ in flow.outcome_sites(HP):
+        if s_["path"] != ():
+            continue
+        if s_.get("idx") is not None:
+            v = N.norm(Tv._rvalue(s_["rv"], s_["bb"], s_["idx"], 0))
+        else:
+            v = N.norm(Tv._call(s_["term"], s_["bb"], 0))
+        if isinstance(v, tuple) and len(v) == 4 and v[0] == "agg" and v[2] == "None":
+            continue
+        if s_["kind"] == "residual":
+            continue
+        n_some += 1
+        inner = dict(v[3]).get("0") if isinstance(v, tuple) and len(v) == 4 and v[0] == "agg" and v[2] == "Some" else v
+        if isinstance(inner, tuple) and len(inner) == 4 and inner[0] == "agg" and inner[1].endswith("::Message"):
+            ret_ok = ret_ok and bdec(dict(inner[3]).get("channel")) == CH
+        elif isinstance(inner, tuple) and len(inner) == 4 and inner[0] == "call" and inner[1].endswith("::remove"):
+            ret_ok = ret_ok and len(inner[2]) == 2 and bdec(inner[2][1]) == CH
+        elif isinstance(inner, tuple) and inner and inner[0] == "gamma" and all((isinstance(x, tuple) and len(x) == 4 and ((x[0] == "call" and x[1].endswith("::remove") and bdec(x[2][1]) == CH) or (x[0] == "agg" and x[2] == "None"))) for l_, x in inner[2]):
+            pass
+        else:
+            ret_ok = False
+    chk.ob("R1 channel frame rule", "R1|returned-message-from-this-packet-or-entry", ret_ok and n_some >= 2, where(hp), "every returned message is built from this packet or is the removed entry of this packet's channel: %s (%d sites)" % (ret_ok, n_some))
     # continuation arm
     gm = [(bb, t) for bb, t, m in tbl if m == "get_mut"]
     muts = [(bb, t, m) for bb, t, m in tbl if m in ("insert", "remove", "entry")]
@@ -194,61 +225,82 @@ def run(chk):
         o = S.local_outcomes(ce)
         okb = len(o) >= 1 and all(has(x.value, lambda y: isinstance(y, tuple) and y and y[0] == "binop" and y[1] == "BitOr") and has(x.value, lambda y: isinstance(y, tuple) and len(y) == 2 and y[0] == "const" and (y[1] == 128 or str(y[1]).endswith("PACKET_DISCRIPTOR_BIT"))) for x in o)
         chk.ob("R3 constants agree", "R3|Command::encode|sets-bit-7", okb, where(ce), "Command::encode = %s" % [flow.term_str(x.value)[:80] for x in o][:2])
-    # decoders: carve 4 (channel, ne), then dispatch on bit 7; init: 1 + 2 (be)
-    ivp = intervals.Intervals(p, pht)
-    sp = sorted(names.calls_to(pht, "slice::split_at"), key=lambda x: x[1]["line"])
-    k_p = [ivp.iv_operand(ivp.at(bb, "t"), t["args"][1]).exact() for bb, t in sp]
-    ne = [t for bb, t in pht.calls() if names.call_is(t, "u32::from_ne_bytes")]
-    other = [t for bb, t in pht.calls() if names.call_is(t, "u32::from_be_bytes", "u32::from_le_bytes")]
-    chk.ob("R3 constants agree", "R3|PacketHeader::try_from|channel", k_p == [4] and len(ne) == 1 and not other, where(pht), "carves %s bytes for the channel, decoded with from_ne_bytes (encoder: to_ne_bytes)" % k_p)
-    Tp = flow.Terms(p, pht)
-    # dispatch on bit 7: on the edge asserting (byte & 0x80) == 0x80 the initialisation header is parsed, on the other edge
-    # the continuation header — whichever way the comparison is spelled (==, !=, operands swapped, arms swapped)
-    disc = False
+    # decoders, on the inlined receiving side: which packet bytes feed which header member, and under which test of bit 7
     is_bit = lambda y: isinstance(y, tuple) and len(y) == 2 and y[0] == "const" and (y[1] == 128 or str(y[1]).endswith("PACKET_DISCRIPTOR_BIT"))
-    for sb in range(len(pht.blocks)):
-        t = pht.term(sb)
-        if t and t["k"] == "switch" and not pht.blocks[sb]["cleanup"]:
-            c = flow.simplify_term(Tp.operand(t["op"], sb, "t"))
-            init_e, cont_e = [], []
-            for sc in sorted(set(pht.succs(sb))):
-                e = flow.eq_test(c, flow.edge_label(pht, sb, sc))
-                if e is None or len(e[0]) != 2:
-                    continue
-                a, b = tuple(e[0])
-                masked = [x for x in (a, b) if isinstance(x, tuple) and x and x[0] == "binop" and x[1] == "BitAnd" and has(x, is_bit)]
-                lit = [x for x in (a, b) if is_bit(x)]
-                if masked and lit:
-                    (init_e if e[1] else cont_e).append(sc)
-            if init_e and cont_e:
-                init_side = set().union(*(pht.reachable(x, follow_yield_drop=False) for x in init_e))
-                cont_side = set().union(*(pht.reachable(x, follow_yield_drop=False) for x in cont_e))
-                ci = [bb for bb, t2 in pht.calls() if names.call_is(t2, "InitHeader::try_from")]
-                cc = [bb for bb, t2 in pht.calls() if names.call_is(t2, "ContHeader::from")]
-                disc = bool(ci and cc) and ci[0] in init_side and cc[0] in cont_side and ci[0] not in cont_side and cc[0] not in init_side
-    chk.ob("R3 constants agree", "R3|PacketHeader::try_from|bit-7-dispatch", disc, where(pht), "byte & 0x80 == 0x80 → initialization, else continuation: %s" % disc)
-    ivi = intervals.Intervals(p, iht)
-    si = sorted(names.calls_to(iht, "slice::split_at"), key=lambda x: x[1]["line"])
-    k_i = [ivi.iv_operand(ivi.at(bb, "t"), t["args"][1]).exact() for bb, t in si]
-    be = [t for bb, t in iht.calls() if names.call_is(t, "u16::from_be_bytes")]
-    oth = [t for bb, t in iht.calls() if names.call_is(t, "u16::from_le_bytes", "u16::from_ne_bytes")]
-    chk.ob("R3 constants agree", "R3|InitHeader::try_from|cmd1-len2-be", k_i == [1, 2] and len(be) == 1 and not oth, where(iht), "carves %s, length decoded with from_be_bytes" % k_i)
-    Ti = flow.Terms(p, iht)
-    mask = False
-    for bb, blk in enumerate(iht.blocks):
-      for si_, s in enumerate(blk["stmts"]):
-        if s["k"] == "assign" and s["rv"]["k"] == "binop" and s["rv"]["op"] == "BitAnd":
-            v = flow.simplify_term(Ti._rvalue(s["rv"], bb, si_, 0))
-            if has(v, lambda y: isinstance(y, tuple) and y and y[0] == "unop" and y[1] == "Not"):
-                mask = True
-    chk.ob("R3 constants agree", "R3|InitHeader::try_from|clears-bit-7", mask, where(iht), "command byte = byte & !0x80: %s" % mask)
+
+    def bit7(t, l):
+        """does the edge assert that bit 7 of packet byte 4 is set (True) / clear (False)?  None: no such test"""
+        e = flow.eq_test(t, l)
+        if e is None or len(e[0]) != 2 or e[1] is None:
+            return None
+        a_, b_ = tuple(e[0])
+        for m_, lit in ((a_, b_), (b_, a_)):
+            if isinstance(m_, tuple) and len(m_) == 4 and m_[0] == "binop" and m_[1] == "BitAnd":
+                x = [y for y in m_[2:4] if not is_bit(y)]
+                if len(x) == 1 and any(is_bit(y) for y in m_[2:4]) and vw(x[0]) == (PKT, 4, 5):
+                    if is_bit(lit):
+                        return e[1]
+                    if lit == ("const", 0):
+                        return not e[1]
+        return None
+
+    def site_alts(bb):
+        return normal.conditions_dnf(N, p, HP, bb, Tv)
+
+    def under(t, alt):
+        for sb_, l_, c_ in alt:
+            t = flow._resolve_nested(t, c_, l_)
+        return flow.simplify_term(t)
+
+    inits = find_aggs(HP, "InitHeader")
+    conts = find_aggs(HP, "ContHeader")
+    msgs = find_aggs(HP, "Message")
+    fld = lambda bb, i, rv, name: N.norm(Tv.operand(rv["ops"][rv["fields"].index(name)], bb, i))
+    ch_ok = bool(inits) and bool(conts) and all(bdec(fld(bb, i, rv, "channel")) == CH for bb, i, rv in inits + conts)
+    enc_kind = li[0][1] if li else None
+    chk.ob("R3 constants agree", "R3|PacketHeader::try_from|channel", ch_ok and enc_kind == "ne" and (lc[0][1] if lc else None) == "ne", where(hp), "both header kinds take the channel from packet[0..4] in native byte order (encoders: %s / %s): %s" % (enc_kind, lc[0][1] if lc else None, ch_ok))
+    disc = bool(inits) and bool(conts)
+    for group, want in ((inits, True), (conts, False)):
+        for bb, i, rv in group:
+            alts = site_alts(bb)
+            disc = disc and bool(alts) and all(any(bit7(c_, l_) is want for sb_, l_, c_ in alt) for alt in alts)
+    chk.ob("R3 constants agree", "R3|PacketHeader::try_from|bit-7-dispatch", disc, where(hp), "an initialization header is built only where bit 7 of packet[4] is set, a continuation header only where it is clear: %s" % disc)
+    len_ok = bool(inits) and all(bdec(fld(bb, i, rv, "payload_len")) == ("be", (PKT, 5, 7)) for bb, i, rv in inits)
+    seq_ok_ = bool(conts) and all(vw(fld(bb, i, rv, "seq")) == (PKT, 4, 5) for bb, i, rv in conts)
+    chk.ob("R3 constants agree", "R3|InitHeader::try_from|cmd1-len2-be", len_ok and seq_ok_ and (li[2][1] if len(li) > 2 else None) == "be", where(hp), "payload length = big-endian packet[5..7] (encoder: %s): %s ; continuation sequence number = packet[4]: %s" % (li[2][1] if len(li) > 2 else None, len_ok, seq_ok_))
+    mask = bool(inits)
+    for bb, i, rv in inits:
+        cm = fld(bb, i, rv, "command")
+        def cleared(y):
+            if not (isinstance(y, tuple) and len(y) == 4 and y[0] == "binop" and y[1] == "BitAnd"):
+                return False
+            ops = y[2:4]
+            byte = [x for x in ops if vw(x) == (PKT, 4, 5)]
+            msk = [x for x in ops if x == ("const", 127) or (isinstance(x, tuple) and len(x) == 3 and x[0] == "unop" and x[1] == "Not" and is_bit(x[2]))]
+            return bool(byte) and bool(msk)
+        mask = mask and has(cm, cleared) and has(cm, lambda y: is_call(y, "TryFrom::try_from") or is_call(y, "TryInto::try_into"))
+    chk.ob("R3 constants agree", "R3|InitHeader::try_from|clears-bit-7", mask, where(hp), "command = Command::try_from(packet[4] & !0x80): %s" % mask)
     # payload share per packet on the receiving side uses the same maxima
-    gi = [flow.simplify_term(Ti.operand(t["args"][1], bb, "t")) for bb, t in iht.calls() if names.call_is(t, "slice::get")]
-    oki = bool(gi) and has(gi[0], lambda y: is_call(y, "Ord::min") or is_call(y, "cmp::min")) and has(gi[0], lambda y: y == ("const", 57))
-    Te = flow.Terms(p, ext)
-    ge = [flow.simplify_term(Te.operand(t["args"][1], bb, "t")) for bb, t in ext.calls() if names.call_is(t, "slice::get")]
-    oke = bool(ge) and has(ge[0], lambda y: is_call(y, "Ord::min") or is_call(y, "cmp::min")) and has(ge[0], lambda y: y == ("const", 59))
-    chk.ob("R3 constants agree", "R3|receiver-payload-shares", oki and oke, where(ext), "init packet carries min(len, 57): %s ; continuation carries min(remaining, 59): %s" % (oki, oke))
+    def share(t, start, cap, len_pred):
+        """t = the first min(n, cap) bytes of packet[start..]"""
+        pv = bytesview.prefix_view(t)
+        if pv is None or pv[0] != (PKT, start, None):
+            return False
+        m = normal.min_of(N.norm(pv[1]))
+        return m is not None and ("const", cap) in m and any(len_pred(x) for x in m if x != ("const", cap))
+    oki = bool(msgs)
+    for bb, i, rv in msgs:
+        alts = site_alts(bb)
+        pay = fld(bb, i, rv, "payload")
+        oki = oki and bool(alts) and all(share(under(pay, alt), 7, 57, lambda x: bdec(x) == ("be", (PKT, 5, 7))) for alt in alts)
+    exts = [(bb, t) for bb, t in HP.calls() if names.call_is(t, "Vec::extend_from_slice", "Extend::extend", "Vec::extend")]
+    oke = bool(exts)
+    for bb, t in exts:
+        alts = site_alts(bb)
+        a_ = N.norm(Tv.operand(t["args"][1], bb, "t"))
+        remaining = lambda x: (is_call(x, "usize::saturating_sub") or (isinstance(x, tuple) and x[:1] == ("binop",) and x[1].startswith("Sub"))) and has(x, lambda y: isinstance(y, tuple) and len(y) == 3 and y[0] == "field" and y[2] == "payload_len") and has(x, lambda y: is_call(y, "Vec::len"))
+        oke = oke and bool(alts) and all(share(under(a_, alt), 5, 59, remaining) for alt in alts)
+    chk.ob("R3 constants agree", "R3|receiver-payload-shares", oki and oke, where(hp), "a new message takes the first min(declared length, 57) bytes of packet[7..]: %s ; a continuation appends the first min(remaining, 59) bytes of packet[5..]: %s" % (oki, oke))
 
     # ---------------- R4
     Tt = flow.Terms(p, tpk)
@@ -286,9 +338,8 @@ def run(chk):
         n = ivt.iv_operand(ivt.at(ck[0][0], "t"), ck[0][1]["args"][1]).exact()
         fst = [flow.simplify_term(Tt.operand(t["args"][1], bb, "t")) for bb, t in tpk.calls() if names.call_is(t, "Index::index", "slice::split_at", "slice::split_at_checked")]
         chk.ob("R4 sequence discipline", "R4|sender-chunk-sizes", n == 59 and any(has(x, lambda y: y == ("const", 57)) for x in fst), where(tpk, ck[0][0]), "continuation chunks of %s bytes after the first 57" % n)
-    o_ini = S.local_outcomes(ini)
-    ok = len(o_ini) == 1 and o_ini[0].value[0] == "agg" and dict(o_ini[0].value[3]).get("sequence") == ("const", 0)
-    chk.ob("R4 sequence discipline", "R4|receiver-starts-at-0", ok, where(ini), "Message::init sets sequence = 0: %s" % ok)
+    ok = bool(msgs) and all(fld(bb, i, rv, "sequence") == ("const", 0) for bb, i, rv in msgs)
+    chk.ob("R4 sequence discipline", "R4|receiver-starts-at-0", ok, where(hp), "a message created from an initialization packet starts with sequence = 0: %s" % ok)
     rows = S.local_outcomes(ext)
     acc = [o for o in rows if o.variant[:1] == ("Ok",)]
     rej = [o for o in rows if o.variant[:1] == ("Err",)]
